@@ -398,6 +398,39 @@ func init() {
 				}
 			}
 			t.Sink = func(u ssa.Instruction, v ssa.Value) string {
+				// m[k] = v where m is a map held in a field of an engine object (or a package-level map)
+				if mu, ok := u.(*ssa.MapUpdate); ok && (mu.Value == v || mu.Key == v) {
+					// a memo of a filesystem answer: the function that stores is the one that asked. (Template text
+					// read from a file travels everywhere — into the expression cache as key and compiled program,
+					// for instance; that is a pure function of its key, C10.R6.)
+					asks := false
+					for _, site := range callsIn(mu.Parent()) {
+						switch calleeName(site.Common()) {
+						case "io/fs.Stat", "io/fs.ReadFile", "io/fs.ReadDir", "(*vuego.Loader).Stat", "(*vuego.Loader).loadFragment", "io/fs.FS.Open", "io/fs.Glob":
+							asks = true
+						}
+					}
+					if !asks {
+						return ""
+					}
+					for _, o := range p.origins(mu.Map, OriginOpts{}) {
+						ld, ok := o.(*ssa.UnOp)
+						if !ok || ld.Op != token.MUL {
+							continue
+						}
+						if _, isG := ld.X.(*ssa.Global); isG {
+							return "stored in package-level map " + accessPath(ld.X)
+						}
+						if fa, ok := ld.X.(*ssa.FieldAddr); ok && engineType(fa.X.Type()) {
+							name := fieldName(fa.X.Type(), fa.Field)
+							if name == "templateCache" {
+								continue // validated by mtime: C15.R2
+							}
+							return "stored in the map held in engine field " + name
+						}
+					}
+					return ""
+				}
 				st, ok := u.(*ssa.Store)
 				if !ok || st.Val != v {
 					return ""
